@@ -32,7 +32,7 @@ func PropagateLookaheads(m *Model) error {
 	for _, nt := range m.Nonterms {
 		used.ClearAll(len(m.Params))
 		usedLA(m, nt.Value, func(param int, _ status.SourceNode) { used.Set(param) })
-		required := used.Slice(reuse)
+		required := used.Slice(nil) // retained in requiredFlags, must not share the scratch buffer
 		state = append(state, nontermExt{pending: closure.Add(required), requiredFlags: required})
 	}
 	for i, nt := range m.Nonterms {
